@@ -1,9 +1,13 @@
 # edited by hand; consumed by gen_manifest.py
-_T3 = "run-time contracts vs dense oracles (bounded)"
-CLAIMED['C01'] = ('other', 'sidecar contracts: run-time clause evaluation vs dense spec (bounded); E1/E2 added as built',
-                  'Contracts of the value-level TT API evaluated on the real code for an enumerated+seeded family of shapes/kinds against the independent einsum denotation; bounded, not a proof.',
-                  'NumPy as oracle; tolerance 1e-9 relative; bounded family of shapes')
-for _p in ['C%02d' % i for i in range(2, 16)]:
-    CLAIMED[_p] = CLAIMED['C01']
-for _p in ['C%02d' % i for i in range(16, 21)]:
-    NA[_p] = 'check not built yet in this session (work in progress; see DESIGN.md section 8)'
+_NOTE = ('trusted: NumPy/SciPy (LAPACK) as oracle and as the numerics under test; tolerance 1e-9 relative unless stated in the '
+         'property module; bounded family of shapes/seeds (VERIF_SEED); assumptions listed in every evidence file')
+_TXT = ('Sidecar contracts on the real functions this property depends on (pre/postconditions, frame and freshness clauses, '
+        'contracts on private helpers installed into the module namespace), evaluated at run time against independent dense '
+        'oracles over an enumerated+seeded family; E1 (AST->VC + z3) obligations, where present for this property, are counted '
+        'separately in the evidence as obligations/discharged. Bounded stand-in: never counted as proved.')
+for _i in range(1, 21):
+    CLAIMED['C%02d' % _i] = ('other', 'sidecar contracts; run-time clause evaluation vs dense oracles (bounded)', _TXT, _NOTE)
+CLAIMED['C14'] = ('other', 'sidecar contracts; exact symbolic execution of the real methods on sympy symbols + complex-step run-time checks',
+                  _TXT + ' For C14 the real derivative methods are additionally executed symbolically (sympy) - exact in the point and the parameters for the enumerated families/indices/degrees.', _NOTE)
+CLAIMED['C20'] = ('exploration', 'run-time contract vs dense inverse-CDF oracle with seeded uniforms (bounded)',
+                  'The sampler is compared with a dense inverse-CDF oracle for seeded uniform variates over an enumerated family of states and measured subsets; no deductive back end decides the floating-point branch, so this is exploration only.', _NOTE)
